@@ -152,6 +152,10 @@ impl Scenario for Xen {
             if let Some(f) = faults.first() {
                 let why = if f.contains("null-based") { "access through the unmapped null-based address" } else if f.contains("already been released") { "access to a released temporary mapping" } else { "access past the end of its temporary mapping" };
                 cx().violate("C17", "C17/mmu", fp(why), format!("{}: {}", line, f));
+                if f.contains("already been released") {
+                    // the library itself kept using an address after unmapping what was behind it
+                    cx().violate("C12", "C12/use-after-unmap", fp("access to a mapping the library has already unmapped"), format!("{}: {}", line, f));
+                }
             }
             match &outcome {
                 Err(m) if !inject && faults.is_empty() => cx().violate("C17", "C17/panic", fp("panic"), format!("{}: {}", line, m)),
